@@ -26,10 +26,16 @@
      [3, label, n]     get_terms(n) of that rule, computed by the transcribed DisjointUnion.get_terms /
                        CartesianProduct.get_terms from the NUMBERS OF OBJECTS in the children's
                        dictionaries                                  -> sorted [[params, count]..], count <> 0
+     [4, label, n]     get_terms(n) of the rule of `label` through the TERMS caches of the whole
+                       specification (Count/ObjectsTermsModel.v: Rule._ensure_level /
+                       VerificationRule._ensure_level; one shared set of terms caches, independent of
+                       the objects caches).  A verification strategy's get_terms is taken to count
+                       what its get_objects lists (its contract): vterms = terms_of of the table
+                                                                     -> sorted [[params, count]..], count <> 0
    a query that gets no answer (fuel, missing rule) prints [-9]. *)
 From Coq Require Import ZArith List Bool.
 From CSS Require Import Base.Sx Base.PyList Gen.Prelude Gen.Compositions Count.ObjectsModel
-                        Count.ObjectsCountModel.
+                        Count.ObjectsCountModel Count.ObjectsTermsModel.
 Import ListNotations.
 Open Scope Z_scope.
 
@@ -212,6 +218,11 @@ Definition level_terms (s : cache) (c : nat) (n : Z) : option (cache * terms) :=
   | None => None
   end.
 
+(* the counting view of the rules: a verification strategy counts what it lists *)
+Definition vterms_of (c : nat) (n : Z) : terms :=
+  match spec_of c with Some (RVerified tbl) => terms_of (tbl n) | _ => [] end.
+Definition tspec_run : nat -> option trule := tspec_of spec_of vterms_of.
+
 Definition run_query (s : cache) (q : sx) : cache * sx :=
   let a := sx_list q in
   let kind := sx_Z (nth 0 a (I 0)) in
@@ -241,13 +252,21 @@ Definition run_query (s : cache) (q : sx) : cache * sx :=
          end
   end.
 
-Fixpoint run_queries (s : cache) (qs : list sx) : list sx :=
+(* queries of kind 4 run on the terms caches, all others on the objects caches *)
+Fixpoint run_queries (s : cache) (t : tcache) (qs : list sx) : list sx :=
   match qs with
   | [] => []
-  | q :: r => let '(s', a) := run_query s q in a :: run_queries s' r
+  | q :: r =>
+      let a := sx_list q in
+      if Z.eqb (sx_Z (nth 0 a (I 0))) 4 then
+        match get_terms tspec_run FUEL t (sx_nat (nth 1 a (I 0))) (sx_Z (nth 2 a (I 0))) with
+        | Some (t', tm) => enc_terms tm :: run_queries s t' r
+        | None => L [I (-9)] :: run_queries s t r
+        end
+      else let '(s', ans) := run_query s q in ans :: run_queries s' t r
   end.
 End Run.
 
 Definition run_c07 (inp : sx) : sx :=
   let rules := map dec_rule (sx_list (sx_nth inp 0)) in
-  L (run_queries rules empty_cache (sx_list (sx_nth inp 1))).
+  L (run_queries rules empty_cache empty_tcache (sx_list (sx_nth inp 1))).
